@@ -35,6 +35,9 @@ type scenario struct {
 	NoTemplateLabels bool `json:"noTemplateLabels,omitempty"`
 	// ParentSelector gives the controller a labelSelector (managed-by=<id>) and the parent that label.
 	ParentSelector bool `json:"parentSelector,omitempty"`
+	// ResyncAfter > 0: every hook answer carries resyncAfterSeconds (also answered when the number of
+	// desired kids is even)
+	ResyncAfter int64 `json:"resyncAfter,omitempty"`
 }
 
 type kindCfg struct {
@@ -218,6 +221,12 @@ func (sc *scenario) parentObject(kids []kidCfg, rev, extra string) sim.Obj {
 	spec["kids"] = ks
 	if sc.Finalize {
 		spec["finalize"] = "step"
+	}
+	if sc.ResyncAfter > 0 {
+		spec["resyncAfter"] = sc.ResyncAfter
+	} else if len(kids)%2 == 0 {
+		// the hook asks to be called again later (resyncAfterSeconds); parked by the recording queue
+		spec["resyncAfter"] = int64(30 + len(kids))
 	}
 	p["spec"] = spec
 	return p
